@@ -155,6 +155,8 @@ def cases(tier, rng, run):
 
 def judge(case, impl_out, spec):
     if case.tag == "shape":
+        if " same-as-string=0" in impl_out:
+            return "TensorType[Shape[...]] is not the annotation the class builds from the printed string: " + impl_out.split(" same-as-string=")[1]
         return None
     if case.tag == "badoperand" or "const(" in case.line or "anon(" in case.line:
         if impl_out != "printerr TypeError":
